@@ -16,7 +16,7 @@ func init() {
 	register(&Prop{
 		ID:       "C17",
 		Title:    "Layout succeeds with finite geometry for every compilable diagram",
-		Patterns: []string{"./d2layouts/...", "./d2renderers/d2latex", "./d2renderers/d2sketch", "./d2renderers/d2svg", "./lib/jsrunner", "./d2graph", "./d2target", "./d2themes", "./lib/svg", "./lib/color", "./lib/textmeasure"},
+		Patterns: []string{"./d2layouts/...", "./d2ast", "./d2renderers/d2latex", "./d2renderers/d2sketch", "./d2renderers/d2svg", "./lib/jsrunner", "./d2graph", "./d2target", "./d2themes", "./lib/svg", "./lib/color", "./lib/textmeasure"},
 		Explanation: "Decides two narrow clauses: (1) no user text is evaluated as code by the JavaScript bridges — every operand of every format call whose result reaches JSRunner.RunString (dagre, ELK, MathJax, rough.js) is judged in its JavaScript quoting context (template literal, double/single-quoted string, bare): a value derived from a user-controlled d2graph/d2target field is accepted only if it is numeric, JSON-encoded in a bare position, a mapper id, or has passed escapers covering that context's metacharacters (\\ ` $ for template literals; \\ \" newline for double-quoted strings), as computed from the escaper's own replace/compare constants; " +
 			"(2) every success return of LayoutNested passes the object-position validation, and DefaultRouter/engine errors are propagated (no dropped error from the layout callbacks).",
 		NotCovered: "that the engines succeed, finiteness of the geometry they return, renderability; dereferences of absent values in the layout packages (see C07's nil rules, which stop at the compile path)",
@@ -126,6 +126,8 @@ func escNames(m uint8) string {
 func runC17(c *core.Check) {
 	c.Rule("C17.js", "operands spliced into JavaScript that reaches RunString are numeric, JSON, or escaped for their quoting context")
 	c.Rule("C17.validate", "LayoutNested: every success return passes validateObjectPositions; layout callback errors are returned")
+	c.Rule("C17.finite", "the reference box of constant-near placement resets every ±Inf accumulator pair unconditionally (an all-near board must not be placed at ±Inf)")
+	checkInfReset(c, "C17.finite")
 	runJSClause(c, "C17.js", []string{"d2layouts/d2dagrelayout", "d2layouts/d2elklayout", "d2renderers/d2latex", "d2renderers/d2sketch", "lib/jsrunner", "d2graph", "d2renderers/d2svg", "d2target", "d2layouts", "d2themes", "lib/svg", "lib/color"}, nil, 15, 20)
 
 	// (2) validation on success paths of LayoutNested
